@@ -6,7 +6,7 @@
     functions ([paths_of], [paths_to], [connected_components], ...) transcribe graph/*.go; panics
     and fuel exhaustion are the result values [Panic]/[Hang], so "returns [Ok]" includes
     termination of every loop and recursion of the model. *)
-From Algo.C14 Require Import Spec ProofsBasic ProofsTrav ProofsReach ProofsBfs ProofsScc ProofsCC ProofsSpt ProofsTopo ProofsCycle.
+From Algo.C14 Require Import Spec ProofsBasic ProofsTrav ProofsReach ProofsBfs ProofsScc ProofsCC ProofsSpt ProofsTopo ProofsCycle ProofsOrders.
 
 (** * The property at full strength *)
 Definition nonneg (es : list edge) : Prop := forall e, In e es -> (0 <= e_w e)%Z.
@@ -156,29 +156,18 @@ Theorem C14_topological_order_acyclic :
   forall g order, topological_order g order -> acyclic g.
 Proof. exact topo_acyclic. Qed.
 
-(** Clause 5 (Topological), partial.  Proved: [Order()] answers "none" exactly when the graph
-    has a cycle (by [C14_directed_cycle], since Topological consults DirectedCycle first);
-    whenever the returned order passes [check_topo] it is a topological order.  Missing: that the
-    reverse DFS post-order of an acyclic graph always passes (checked on every generated graph
-    by the extracted checker). *)
-Theorem C14_topological_partial :
+(** Clause 5 of [C14_full], fully proved: Topological terminates; it returns an order iff the
+    graph is acyclic, and that order (the reverse DFS post-order) lists every vertex exactly once
+    and is consistent with every edge. *)
+Theorem C14_topological :
   forall n es,
     let g := mk_graph true n es in
-    (forall c, directed_cycle g = Ok (Some c) -> topological g = Ok None /\ ~ acyclic g) /\
-    (directed_cycle g = Ok None -> acyclic g /\ topological g <> Ok None) /\
-    (forall o r, topological g = Ok (Some (o, r)) -> check_topo g o = true ->
-                 topological_order g o /\ acyclic g).
-Proof.
-  intros n es g.
-  destruct (dc_correct g (wf_mk_graph true n es)) as [r [E H]].
-  split; [|split].
-  - intros c Ec. rewrite E in Ec. injection Ec as ->. unfold topological. rewrite E.
-    split; auto. intros A. exact (A c H).
-  - intros En. rewrite E in En. injection En as ->. split; auto.
-    unfold topological. rewrite E. destruct (orders_of g SDFS); discriminate.
-  - intros o rk _ Hc. pose proof (check_topo_sound g o (wf_mk_graph true n es) Hc) as T.
-    split; auto. eapply topo_acyclic; eauto.
-Qed.
+    exists r, topological g = Ok r /\
+      match r with
+      | Some (o, _) => topological_order g o /\ acyclic g
+      | None => ~ acyclic g
+      end.
+Proof. intros n es. exact (topological_correct (mk_graph true n es) (wf_mk_graph true n es)). Qed.
 
 (** Checker theorem for shortest paths, unbounded: answers accepted by [check_spt] (dist s = 0,
     every edge relaxed, every returned path a real path of exactly the returned weight) are the
@@ -248,7 +237,7 @@ Print Assumptions C14_check_cc_sound.
 Print Assumptions C14_scc_partial.
 Print Assumptions C14_directed_cycle.
 Print Assumptions C14_topological_order_acyclic.
-Print Assumptions C14_topological_partial.
+Print Assumptions C14_topological.
 Print Assumptions C14_check_spt_sound.
 Print Assumptions C14_dijkstra_partial.
 Print Assumptions C14_check_path_sound.
